@@ -521,6 +521,26 @@ func (bc *BlockChain) writeHead(batch aquadb.Batch, block *types.Block) error {
 	return WriteHeadBlockHash(batch, block.Hash())
 }
 
+// displacedBlock names a block whose canonical number entry is being taken over or removed.
+type displacedBlock struct {
+	hash   common.Hash
+	number uint64
+}
+
+// dropTxLookups removes the lookup entries of the transactions of a block that stopped being
+// canonical, as far as they still point at that block.
+func (bc *BlockChain) dropTxLookups(hash common.Hash, number uint64) {
+	body := GetBodyNoVersion(bc.db, hash, number)
+	if body == nil {
+		return
+	}
+	for _, tx := range body.Transactions {
+		if h, _, _ := GetTxLookupEntry(bc.db, tx.Hash()); h == hash {
+			DeleteTxLookupEntry(bc.db, tx.Hash())
+		}
+	}
+}
+
 // insertHeads is the in-memory part of insert, plus the header and fast block pointers.
 func (bc *BlockChain) insertHeads(block *types.Block, updateHeads bool) {
 	bc.currentBlock.Store(block)
@@ -1046,7 +1066,20 @@ func (bc *BlockChain) WriteBlockWithState(block *types.Block, receipts []*types.
 	// block data: a crash never leaves a head pointer without its block, nor a stored block
 	// that is heavier than the head it did not become.
 	updateHeads := GetCanonicalHash(bc.db, block.NumberU64()) != block.Hash()
+	var displaced []displacedBlock
 	if status == CanonStatTy {
+		// Canonical entries at and above the new head that name other blocks stop being canonical. After a
+		// reorganisation they are blocks of the old chain; after a rewind to a block whose state was pruned
+		// (or header-first imports) they can also sit above the block head. Their lookups go after the flush.
+		for i := block.NumberU64(); ; i++ {
+			hash := GetCanonicalHash(bc.db, i)
+			if hash == (common.Hash{}) {
+				break
+			}
+			if hash != block.Hash() {
+				displaced = append(displaced, displacedBlock{hash, i})
+			}
+		}
 		if err := bc.writeHead(batch, block); err != nil {
 			return NonStatTy, err
 		}
@@ -1061,6 +1094,9 @@ func (bc *BlockChain) WriteBlockWithState(block *types.Block, receipts []*types.
 	}
 	if status == CanonStatTy {
 		bc.insertHeads(block, updateHeads)
+		for _, d := range displaced {
+			bc.dropTxLookups(d.hash, d.number)
+		}
 	}
 	bc.futureBlocks.Remove(block.Hash())
 	return status, nil
@@ -1433,6 +1469,19 @@ func (bc *BlockChain) reorg(oldBlock, newBlock *types.Block) error {
 			"drop", len(oldChain), "dropfrom", oldChain[0].Hash(), "add", len(newChain), "addfrom", newChain[0].Hash())
 	} else {
 		log.Error("Impossible reorg, please file an issue", "oldnum", oldBlock.Number(), "oldhash", oldBlock.Hash(), "newnum", newBlock.Number(), "newhash", newBlock.Hash())
+	}
+	// Canonical entries that the new chain overwrites without their block being part of the old chain
+	// (entries above the old block head) lose their transactions' lookups like old chain blocks do
+	inOld := make(map[common.Hash]bool, len(oldChain))
+	for _, b := range oldChain {
+		inOld[b.Hash()] = true
+	}
+	for _, b := range newChain {
+		if hash := GetCanonicalHash(bc.db, b.NumberU64()); hash != (common.Hash{}) && hash != b.Hash() && !inOld[hash] {
+			if body := GetBodyNoVersion(bc.db, hash, b.NumberU64()); body != nil {
+				deletedTxs = append(deletedTxs, body.Transactions...)
+			}
+		}
 	}
 	// Insert the new chain, taking care of the proper incremental order
 	var addedTxs types.Transactions
